@@ -18,53 +18,60 @@ Module C4 := T4V.C04.ProofsCompose.
 Module T4 := T4V.C04.ProofsTree.
 
 (* ---------- the bridge: C02's SurfaceMCNP record in C04's frame form ---------- *)
-Definition v4 (v : vec (T:=R)) : S4.R3 := V4.mkV (vx v) (vy v) (vz v).
-Definition pt3 (p : S4.R3) : pointR := (V4.vx p, V4.vy p, V4.vz p).
+Section Bridge.
+Context {T : Type} (S : Scalar T).
 
-Definition kind4 (k : kind) : M4.mkind :=
-  match k with
-  | KdS => M4.KS | KdP => M4.KP | KdC => M4.KC | KdK => M4.KK | KdT => M4.KT
-  | KdSQ => M4.KSQ | KdGQ => M4.KGQ
-  end.
+Definition v4g (v : vec (T:=T)) : V4.V3 T := V4.mkV (vx v) (vy v) (vz v).
 
 (* the sheet selector as C04 holds it (int of the value; only -1, 0, +1) *)
-Definition nappe_Z (n : R) : option Z :=
-  if Reqb n 0 then Some 0%Z else if Reqb n 1 then Some 1%Z
-  else if Reqb n (- (1)) then Some (-1)%Z else None.
+Definition nappe_Zg (n : T) : option Z :=
+  if seqb S n (s0 S) then Some 0%Z else if seqb S n (s1 S) then Some 1%Z
+  else if seqb S n (sneg S (s1 S)) then Some (-1)%Z else None.
 
-Definition to_ms (c : cad (T:=R)) : option (M4.msurf R) :=
+Definition to_msg (c : cad (T:=T)) : option (M4.msurf T) :=
   let '(pt, u) := match c_frame c with
-                  | Some (p, u) => (v4 p, v4 u)
-                  | None => (V4.mkV 0 0 0, V4.mkV 0 0 0)
+                  | Some (p, u) => (v4g p, v4g u)
+                  | None => (V4.mkV (s0 S) (s0 S) (s0 S), V4.mkV (s0 S) (s0 S) (s0 S))
                   end in
   match c_kind c with
   | KdK =>
       match c_srf c with
       | [Some c0; Some a; None] => Some (M4.mkMS M4.KK pt u [c0; a] None)
       | [Some c0; Some a; Some n] =>
-          match nappe_Z n with
+          match nappe_Zg n with
           | Some z => Some (M4.mkMS M4.KK pt u [c0; a] (Some z))
           | None => None
           end
       | _ => None
       end
   | k => match all_some (c_srf c) with
-         | Ok l => Some (M4.mkMS (kind4 k) pt u l None)
+         | Ok l => Some (M4.mkMS (match k with
+                                  | KdS => M4.KS | KdP => M4.KP | KdC => M4.KC | KdK => M4.KK
+                                  | KdT => M4.KT | KdSQ => M4.KSQ | KdGQ => M4.KGQ
+                                  end) pt u l None)
          | Err _ => None
          end
   end.
 
 (* to_surface_mcnp with a transform_id, then convert_mcnp_surface: C02's model
    up to the SurfaceMCNP, C04's from there *)
-Definition card_tr_convert (tr : list R) (mn : mnem) (prm : list R)
-  : M4.res (list (M4.t4surf R * Z)) :=
-  match to_surface_mcnp RS mn prm with
-  | Ok c => match to_ms c with
-            | Some s => M4.tr_convert RS tr s
+Definition card_tr_convert_g (tr : list T) (mn : mnem) (prm : list T)
+  : M4.res (list (M4.t4surf T * Z)) :=
+  match to_surface_mcnp S mn prm with
+  | Ok c => match to_msg c with
+            | Some s => M4.tr_convert S tr s
             | None => M4.Err M4.EType
             end
   | Err _ => M4.Err M4.EValue
   end.
+End Bridge.
+
+Definition v4 : vec (T:=R) -> S4.R3 := v4g.
+Definition pt3 (p : S4.R3) : pointR := (V4.vx p, V4.vy p, V4.vz p).
+Definition nappe_Z : R -> option Z := nappe_Zg RS.
+Definition to_ms : cad (T:=R) -> option (M4.msurf R) := to_msg RS.
+Definition card_tr_convert : list R -> mnem -> list R -> M4.res (list (M4.t4surf R * Z)) :=
+  card_tr_convert_g RS.
 
 (* int(transform_id) for the spelling digits + blanks *)
 Definition tr_number (tr : string) : option Z :=
@@ -234,8 +241,8 @@ Proof. intros Ht. cone_two Ht. Qed.
 
 (* selector 0 *)
 Ltac cone_zero Ht :=
-  cone_to Ht; unfold nappe_Z; consts;
-  eexists _, _; split; [reflexivity|]; split; [cbn; unfold nappe_Z; consts; reflexivity|];
+  cone_to Ht; unfold nappe_Zg; cbn; consts;
+  eexists _, _; split; [reflexivity|]; split; [cbn; unfold nappe_Zg; cbn; consts; reflexivity|];
   split; [wf_frame; auto|];
   apply (two_sided_frame _ _ 1); [lra|reflexivity|]; cone_alg Ht; ring.
 
@@ -253,10 +260,10 @@ Lemma k_z0_bridge a b c t2 : 0 <= t2 -> bridge M_K_Z [a; b; c; t2; 0] (mkMsurf (
 Proof. intros Ht. cone_zero Ht. Qed.
 
 (* selector +1 / -1: the kept sheet *)
-Lemma nappe_Z_1 : nappe_Z 1 = Some 1%Z.
-Proof. unfold nappe_Z. rewrite Reqb_1_0, Reqb_refl. reflexivity. Qed.
-Lemma nappe_Z_m1 : nappe_Z (-1) = Some (-1)%Z.
-Proof. unfold nappe_Z. rewrite Reqb_m1_0, Reqb_m1_1, Reqb_m1_m1. reflexivity. Qed.
+Lemma nappe_Z_1 : nappe_Zg RS 1 = Some 1%Z.
+Proof. unfold nappe_Zg. cbn. rewrite Reqb_1_0, Reqb_refl. reflexivity. Qed.
+Lemma nappe_Z_m1 : nappe_Zg RS (-1) = Some (-1)%Z.
+Proof. unfold nappe_Zg. cbn. rewrite Reqb_m1_0, Reqb_m1_1, Reqb_m1_m1. reflexivity. Qed.
 
 Ltac cone_sheet Ht nz :=
   cone_to Ht;
@@ -412,7 +419,7 @@ Proof.
   pose proof (moved_conv_wf o b s s' Hb Hw Htr) as Hcw.
   destruct (T4.convert_law s' Hcw) as (coll & Hconv & Hreg).
   exists coll. split.
-  - unfold card_tr_convert. rewrite H1, H2. unfold M4.tr_convert. rewrite Htr. exact Hconv.
+  - unfold card_tr_convert, card_tr_convert_g. rewrite H1. fold to_ms. rewrite H2. unfold M4.tr_convert. rewrite Htr. exact Hconv.
   - intros p'. destruct (Hreg (S4.to_main o b p')) as [Rn Rp].
     destruct (Hmove p') as [Mn Mp]. destruct (Hsense p') as [Sn Sp].
     split; [rewrite <- Rn, Mn; exact Sn | rewrite <- Rp, Mp; exact Sp].
